@@ -343,6 +343,53 @@ def equalish(a, b):
     return a == b
 
 
+def wire_form(ctx, m, u, exp, kind, P, ty, key, what=""):
+    """write_into_vec / size / read-back of object u against the documented wire form; returns (vals, hdr, dirty)"""
+    vals, hdr, dirty = snapshot(u)
+    keys = sorted(vals)
+    hb = [k for k in range(len(hdr) * 32) if bit(hdr, k)]
+    if keys != hb:
+        ctx.violate("um.wire", key + "|invariant", f"{exp} Update{kind}{what}: header bits {hb[:40]} differ from the stored words {keys[:40]}")
+    sink = Sink()
+    m.call_fn(ty + "::write_into_vec", [u, sink])
+    want = [len(hdr)]
+    for h, d in zip(hdr, dirty):
+        want += [((h & d) >> (8 * i)) & 0xFF for i in range(4)]
+    written = [k for k in keys if bit(hdr, k) and bit(dirty, k)]
+    for k in written:
+        want += to_wide(vals[k], 4).slots
+    if sink.out != want:
+        detail = f"emits {show(sink.out)}, expected {show(want)}" if len(want) < 60 else f"emits {len(sink.out)} bytes, expected {len(want)}"
+        if len(want) >= 60 and len(sink.out) != len(want):
+            # which words are missing / extra
+            nb = 1 + 4 * len(hdr)
+            got_words = [sink.out[i:i + 4] for i in range(nb, len(sink.out), 4)]
+            want_words = {k: to_wide(vals[k], 4).slots for k in written}
+            missing = [k for k in written if want_words[k] not in got_words]
+            detail += f"; value words of indices {missing[:12]} are not written although their mask bits are set"
+        ctx.violate("um.wire", key + "|write", f"{exp} Update{kind}::write_into_vec{what} {detail} (wire form: block count, header&dirty blocks, then the dirty present words in ascending index)")
+    variant = ("variant", f"wow_world_messages::helper::{exp}::update_mask::UpdateMask::{kind}", [u])
+    size = m.call_fn(f"{P}UpdateMask::size", [variant])
+    if size != len(sink.out):
+        ctx.violate("um.wire", key + "|size", f"{exp} UpdateMask::size(){what} reports {size} for an Update{kind} that is written as {len(sink.out)} bytes")
+    st = Stream(sink.out + [Tok(10_000_000 + i, "any") for i in range(4)])
+    back = m.call_fn(f"{P}UpdateMask::read", [st])
+    ok = isinstance(back, tuple) and back[0] == "Ok" and isinstance(back[1], tuple) and back[1][0] == "variant"
+    if not ok:
+        ctx.violate("um.wire", key + "|read", f"{exp} UpdateMask::read of a written Update{kind}{what} returns {show(back)}")
+    else:
+        got_kind = back[1][1].split("::")[-1]
+        if got_kind != kind:
+            ctx.violate("um.dispatch", key, f"{exp}: an Update{kind} (type word {vals.get(2)!r}) is decoded as UpdateMask::{got_kind}: the object-kind tests are in the wrong order or use the wrong bits")
+        obj = back[1][2][0]
+        bv = obj[2]["values"].d
+        if sorted(bv) != written or any(not same_word(bv[k], vals[k]) for k in written) or obj[2]["header"] != [h & d for h, d in zip(hdr, dirty)]:
+            ctx.violate("um.wire", key + "|roundtrip", f"{exp} Update{kind}{what}: decoding the written form yields words {sorted(bv)[:40]}, written were {written[:40]}")
+        if st.pos != len(sink.out):
+            ctx.violate("um.wire", key + "|consumed", f"{exp} UpdateMask::read consumes {st.pos} bytes of a {len(sink.out)}-byte mask")
+    return vals, hdr, dirty
+
+
 def check_wire(ctx, FB, exp):
     """new -> (setters) -> write -> read back / size / dirty operations, per kind"""
     F = FB["wow_world_messages"]
@@ -358,41 +405,8 @@ def check_wire(ctx, FB, exp):
             g = ev.value("wow_world_base::manual::shared::guid_vanilla_tbc_wrath::Guid")
             m.call_fn(f"{P}impls::<impl {ty}>::set_object_guid", [u, g])
             m.call_fn(f"{P}impls::<impl {ty}>::set_object_scale_x", [u, ev.value("f32")])
-            vals, hdr, dirty = snapshot(u)
-            # invariant: value present <=> header bit
+            vals, hdr, dirty = wire_form(ctx, m, u, exp, kind, P, ty, key)
             keys = sorted(vals)
-            hb = [k for k in range(len(hdr) * 32) if bit(hdr, k)]
-            if keys != hb:
-                ctx.violate("um.wire", key + "|invariant", f"{exp} Update{kind}: header bits {hb} differ from the stored words {keys}")
-            sink = Sink()
-            m.call_fn(ty + "::write_into_vec", [u, sink])
-            want = [len(hdr)]
-            for h, d in zip(hdr, dirty):
-                want += [((h & d) >> (8 * i)) & 0xFF for i in range(4)]
-            for k in keys:
-                if bit(hdr, k) and bit(dirty, k):
-                    want += to_wide(vals[k], 4).slots
-            if sink.out != want:
-                ctx.violate("um.wire", key + "|write", f"{exp} Update{kind}::write_into_vec emits {show(sink.out)}, the wire form is block count, header&dirty blocks, then the dirty present words in ascending index: {show(want)}")
-            variant = ("variant", f"wow_world_messages::helper::{exp}::update_mask::UpdateMask::{kind}", [u])
-            size = m.call_fn(f"{P}UpdateMask::size", [variant])
-            if size != len(sink.out):
-                ctx.violate("um.wire", key + "|size", f"{exp} UpdateMask::size() reports {size} for an Update{kind} that is written as {len(sink.out)} bytes")
-            st = Stream(sink.out + [Tok(10_000 + i, "any") for i in range(4)])
-            back = m.call_fn(f"{P}UpdateMask::read", [st])
-            ok = isinstance(back, tuple) and back[0] == "Ok" and isinstance(back[1], tuple) and back[1][0] == "variant"
-            if not ok:
-                ctx.violate("um.wire", key + "|read", f"{exp} UpdateMask::read of a written Update{kind} returns {show(back)}")
-            else:
-                got_kind = back[1][1].split("::")[-1]
-                if got_kind != kind:
-                    ctx.violate("um.dispatch", key, f"{exp}: an Update{kind} (type word {vals.get(2)!r}) is decoded as UpdateMask::{got_kind}: the object-kind tests are in the wrong order or use the wrong bits")
-                obj = back[1][2][0]
-                bv = obj[2]["values"].d
-                if sorted(bv) != keys or any(not same_word(bv[k], vals[k]) for k in keys) or obj[2]["header"] != hdr:
-                    ctx.violate("um.wire", key + "|roundtrip", f"{exp} Update{kind}: decoding the written form yields words {sorted(bv)}, written were {keys}")
-                if st.pos != len(sink.out):
-                    ctx.violate("um.wire", key + "|consumed", f"{exp} UpdateMask::read consumes {st.pos} bytes of a {len(sink.out)}-byte mask")
             # dirty operations
             m.call_fn(ty + "::dirty_reset", [u])
             if any(u[2]["dirty_mask"]) or m.call_fn(ty + "::has_any_dirty_fields", [u]) is not False:
@@ -453,6 +467,8 @@ def check_sequence(ctx, FB, exp, rows):
                     culprits = [f for f, _a, r2 in applied if f != field and r2["offset"] < hi and lo < r2["offset"] + r2["size"]]
                     ctx.violate("um.sequence", f"{exp}|{kind}|{field}", f"{exp} Update{kind}: after setting every typed field once, {field}() no longer returns the value given to set_{field} "
                                 f"({'overwritten by ' + ', '.join('set_' + c for c in culprits[:3]) if culprits else 'returns ' + show(res)})", fns[field]["file"], fns[field]["line"])
+            # the fully populated object on the wire (every simple field present and dirty, so every block position is exercised)
+            wire_form(ctx, Mini(FB, "wow_world_messages"), u, exp, kind, P, ty, f"{exp}|{kind}|full", what=" of an object with every simple typed field set")
         except (Unsupported, Panic) as e:
             ctx.violate("um.sequence", f"{exp}|{kind}|shape", f"{exp} Update{kind}: sequence interpretation failed — review ({e})")
     return n
@@ -504,6 +520,57 @@ def check_read_inner(ctx, FB):
             ctx.violate("um.wire", "read_inner|decode", f"inners::read_inner on mask blocks [{what}]: decodes header {header}, field indices {sorted(got) if got is not None else got}, consumes {st.pos} of {body} bytes; "
                         f"expected the blocks themselves, indices {sorted(want)} each holding its own four bytes", fn["file"], fn["line"])
             break
+    return n
+
+
+def check_write_inner(ctx, FB):
+    """inners::write_into_vec and update_mask_size over header x dirty block patterns: block count, header&dirty blocks, then the
+    words whose header and dirty bits are both set in ascending index; size = bytes"""
+    F = FB["wow_world_messages"]
+    wpath, spath = "crate::helper::update_mask_common::inners::write_into_vec", "crate::helper::update_mask_common::inners::update_mask_size"
+    wfn, sfn = F.fn(wpath), F.fn(spath)
+    if wfn is None or sfn is None:
+        ctx.violate("um.wire", "anchor|write_inner", "inners::write_into_vec / update_mask_size not found (anchor disappeared)")
+        return 0
+    hdrs = [[1 << i] for i in range(32)] + [[0], [0xFFFFFFFF], [0x80000001], [0x00010100], [0, 1 << 31], [1 << 31, 1], [5, 0, 0x80000000], [0xFFFFFFFF, 0xFFFFFFFF]]
+    n = 0
+    for hdr in hdrs:
+        for dmode in ("all", "none", "alt", "hi"):
+            dirty = [{"all": 0xFFFFFFFF, "none": 0, "alt": 0xAAAAAAAA, "hi": 0x80000000}[dmode]] * len(hdr)
+            n += 1
+            vals = BTree()
+            t = 7000
+            for k in range(len(hdr) * 32):
+                if bit(hdr, k):
+                    vals.d[k] = Wide([Tok(t + j, "any") for j in range(4)])
+                    t += 4
+            want = [len(hdr)]
+            for h, d in zip(hdr, dirty):
+                want += [((h & d) >> (8 * i)) & 0xFF for i in range(4)]
+            for k in sorted(vals.d):
+                if bit(dirty, k):
+                    want += vals.d[k].slots
+            what = f"header [{' '.join(f'{b:#010x}' for b in hdr)}] dirty [{' '.join(f'{b:#010x}' for b in dirty)}]"
+            try:
+                sink = Sink()
+                Mini(FB, "wow_world_messages").call_fn(wpath, [sink, list(hdr), list(dirty), vals])
+                size = Mini(FB, "wow_world_messages").call_fn(spath, [list(dirty), list(hdr)])
+            except Panic as e:
+                ctx.violate("um.wire", "write_inner|panic", f"inners::write_into_vec / update_mask_size panics on {what}: {e}", wfn["file"], wfn["line"])
+                return n
+            except Unsupported as e:
+                ctx.violate("um.wire", "write_inner|shape", f"inners::write_into_vec: shape not recognised — review ({e})", wfn["file"], wfn["line"])
+                return n
+            if sink.out != want:
+                nb = 1 + 4 * len(hdr)
+                got_words = [sink.out[i:i + 4] for i in range(nb, len(sink.out), 4)]
+                missing = [k for k in sorted(vals.d) if bit(dirty, k) and vals.d[k].slots not in got_words]
+                ctx.violate("um.wire", "write_inner|encode", f"inners::write_into_vec on {what} emits {len(sink.out)} bytes, the wire form has {len(want)}"
+                            f"{'; the words of indices ' + str(missing[:8]) + ' are missing although their mask bits are written' if missing else '; blocks or word order differ'}", wfn["file"], wfn["line"])
+                return n
+            if size != len(want):
+                ctx.violate("um.wire", "write_inner|size", f"inners::update_mask_size on {what} = {size}, the wire form has {len(want)} bytes", sfn["file"], sfn["line"])
+                return n
     return n
 
 
@@ -564,6 +631,7 @@ def run(ctx):
     ctx.rule("um.table3", sum(len(v) for v in md.values()), floor=860, note="rows of update-mask.md vs the generator's FIELDS tables (3 expansions), rows of one object kind disjoint")
     ctx.rule("um.accessors", total_acc, floor=3720, note=f"generated accessors; {total_int} setter/getter/builder interpretations on abstract arguments (every index value of indexed fields)")
     wire += check_read_inner(ctx, FB)
+    wire += check_write_inner(ctx, FB)
     ctx.rule("um.wire", wire, floor=21, note="new/set/write/read-back/size/dirty operations interpreted for 7 object kinds x 3 expansions + read_inner over 39 mask-block patterns (every single bit)")
     ctx.rule("um.sequence", seq, floor=1100, note="getter results after a history that sets every simple typed field of a kind once (7 kinds x 3 expansions)")
     fn_n = check_funnel(ctx, FB["wow_world_messages"])
